@@ -92,6 +92,21 @@ def run_values(job, R):
                 R.classes.add(('values', tuple(got)))
                 if tuple(got) != tuple(vec) or not isinstance(got, tuple):
                     R.viol.append(V('clean_values', f'{name} form of {vec} cleaned to {got!r}', {'vec': vec, 'form': name}, name))
+    # the single-number form for every chip type the library documents (int, float, Fraction, Decimal)
+    for x in (2, 0, 0.25, 1.5, Fraction(1, 2), Fraction(3), Decimal('0.25'), Decimal('3'), Decimal('1.50')):
+        for n in (1, 2, 3, 4):
+            for name, f in forms_of((x,) * n):
+                R.evals += 1
+                try:
+                    got = clean_values(f(), n)
+                except Exception as exc:
+                    R.viol.append(V('clean_values-raised', f'{name} form of {n} x {x!r}: {type(exc).__name__}: {exc}',
+                                    {'value': repr(x), 'n': n, 'form': name}, name + '/' + type(x).__name__))
+                    continue
+                R.classes.add(('values-typed', type(x).__name__, n))
+                if tuple(got) != (x,) * n or any(type(g) is not type(x) for g in got):
+                    R.viol.append(V('clean_values', f'{name} form of {n} x {x!r} cleaned to {got!r}', {'value': repr(x), 'n': n, 'form': name},
+                                    name + '/' + type(x).__name__))
     for bad in (None, object()):
         R.evals += 1
         try:
@@ -180,7 +195,37 @@ def run_stateforms(job, R):
     R.sample = {'n': n, 'which': 'blinds', 'vector': [1, 2, 0][:n], 'form': 'mapping-'}
 
 
+def run_typed_scalars(R):
+    """a layout given as one number of any chip type builds the same state as the explicit list"""
+    pk = env.pokerkit
+    A = tuple(env.S.Automation)
+    for conv in (lambda v: v, lambda v: v * 0.5, lambda v: Fraction(v, 2), lambda v: Decimal(v) * Decimal('0.50')):
+        for n in (2, 3):
+            ante, stack = conv(1), conv(40)
+            blinds = (conv(2), conv(4))
+            for gname, mk in [('NoLimitTexasHoldem', lambda a, s: (A, True, a, blinds, conv(4), s, n)),
+                              ('FixedLimitRazz', lambda a, s: (A, True, a, conv(1), conv(4), conv(8), s, n))]:
+                G = getattr(pk, gname)
+                if gname == 'FixedLimitRazz' and ante == 0:
+                    continue
+                ref = canon.snapshot(G.create_state(*mk([ante] * n, [stack] * n)))
+                for an, a in (('scalar', ante), ('list', [ante] * n)):
+                    for sn, st_ in (('scalar', stack), ('tuple', (stack,) * n), ('mapping', {i: stack for i in range(n)})):
+                        R.evals += 1
+                        cfg = {'game': gname, 'chip_type': type(ante).__name__, 'n': n, 'forms': (an, sn)}
+                        try:
+                            st = G.create_state(*mk(a, st_))
+                        except Exception as exc:
+                            R.viol.append(V('factory-form-acceptance', f'{cfg}: {type(exc).__name__}: {exc}', cfg,
+                                            f'{an}/{sn}/{type(ante).__name__}'))
+                            continue
+                        if canon.snapshot(st) != ref:
+                            R.viol.append(V('factory-form', f'{cfg}: state differs from the explicit lists', cfg, f'{an}/{sn}/{type(ante).__name__}'))
+                        R.classes.add(('typed-scalar', gname, type(ante).__name__, n))
+
+
 def run_gameforms(job, R):
+    run_typed_scalars(R)
     pk = env.pokerkit
     A = tuple(env.S.Automation)
     cases = []
